@@ -54,6 +54,15 @@ class FakeOs(object):
         return bytes((0xA0 + 7 * i + n) & 0xFF for i in range(n))
 
 
+# further receiver-side fates (beyond D / L / C): the frontend call raises an instance of the class of the tree under test
+FAULT_CLASS = {'B': nfc.clf.BrokenLinkError, 'P': nfc.clf.ProtocolError, 'E': nfc.clf.CommunicationError}
+CALL_BOUND = 500
+
+
+class Blocks(BaseException):
+    """a protocol object went on calling the frontend beyond CALL_BOUND"""
+
+
 GUARD = 20.0            # real seconds before a blocked rendezvous is declared a simulator deadlock
 
 
@@ -83,6 +92,7 @@ class Air(object):
         self.q_i = queue.Queue()
         self.t_gone = False
         self.brty_i = lambda: brty     # current bit rate of either side (set by the clf objects)
+        self.brty_i_recv = lambda: brty
         self.brty_t = lambda: brty
         self.brty0 = brty
 
@@ -129,7 +139,7 @@ class IniClf(object):
         if fq == 'L':
             air.clock.now += timeout
             raise nfc.clf.TimeoutError("sim: request lost")
-        air.q_t.put(('frame', bytes(data)) if fq == 'D' else ('corrupt',))
+        air.q_t.put(('frame', bytes(data)) if fq == 'D' else ('corrupt', fq))
         try:
             item = air.q_i.get(timeout=GUARD)
         except queue.Empty:
@@ -139,12 +149,14 @@ class IniClf(object):
             raise nfc.clf.TimeoutError("sim: no response")
         rsp = item[1]
         air.log.append({'dir': 'T', 'data': bytes(rsp), 'fate': fs, 'round': air.round,
-                        'brty_tx': item[2], 'brty_rx': air.brty_i()})
+                        'brty_tx': item[2], 'brty_rx': air.brty_i_recv()})
         if fs == 'L':
             air.clock.now += timeout
             raise nfc.clf.TimeoutError("sim: response lost")
         if fs == 'C':
             raise nfc.clf.TransmissionError("sim: response corrupted")
+        if fs in FAULT_CLASS:
+            raise FAULT_CLASS[fs]("sim: frontend raises %s" % FAULT_CLASS[fs].__name__)
         return bytearray(rsp)
 
 
@@ -154,6 +166,8 @@ class TgtClf(object):
     def __init__(self, air):
         self.air = air
         self.owes = False       # a request was taken from the air and not yet answered / declined
+        self.dead = False
+        self.calls_after_broken_link = None     # frontend calls made after the frontend raised BrokenLinkError
         self.brty = air.brty0
         air.brty_t = lambda: self.brty
 
@@ -176,7 +190,14 @@ class TgtClf(object):
             raise nfc.clf.TimeoutError("sim: link closed")
         self.owes = True
         if item[0] == 'corrupt':
-            raise nfc.clf.TransmissionError("sim: request corrupted")
+            cls = FAULT_CLASS.get(item[1], nfc.clf.TransmissionError)
+            if item[1] == 'B':
+                self.dead = True         # the RF field is gone and stays gone
+            if cls is nfc.clf.BrokenLinkError:
+                self.calls_after_broken_link = 0
+            raise cls("sim: frontend raises %s" % cls.__name__)
+        if self.dead:
+            raise nfc.clf.BrokenLinkError("sim: RF field is off")
         return bytearray(item[1])
 
     def gone(self):
@@ -197,6 +218,10 @@ class TgtClf(object):
             self.owes = True
 
     def exchange(self, data, timeout):
+        if self.calls_after_broken_link is not None:
+            self.calls_after_broken_link += 1
+            if self.calls_after_broken_link > CALL_BOUND:
+                raise Blocks("target keeps polling a frontend that reported BrokenLinkError")
         # timeout == 0: transmit only (as nfc.clf.rcs380 does for recv_timeout 0)
         return self._xfer(data, wait=not (timeout is not None and timeout <= 0 and data))
 
@@ -215,7 +240,9 @@ class TgtClf(object):
             while True:
                 try:
                     data = self._xfer(frame, True)
-                except nfc.clf.TransmissionError:
+                except (nfc.clf.TimeoutError, nfc.clf.BrokenLinkError):
+                    raise
+                except nfc.clf.CommunicationError:       # unreadable frame: keep listening
                     frame = None
                     continue
                 frame = None
@@ -274,7 +301,7 @@ class TgtClf(object):
                     data = recv(None)
                 else:
                     data = recv(None)
-        except nfc.clf.TimeoutError:
+        except (nfc.clf.TimeoutError, nfc.clf.BrokenLinkError):
             return None
 
 
@@ -289,7 +316,9 @@ class Link(object):
         self.ini = nfc.dep.Initiator(self.iclf) if ini is None else ini
         self.tgt = nfc.dep.Target(self.tclf) if tgt is None else tgt
         self.ini.clf, self.tgt.clf = self.iclf, self.tclf
-        self.air.brty_i = lambda: (self.ini.target.brty if self.ini.target is not None else brty)
+        # a driver tunes its transmitter from target.brty_send and its receiver from target.brty_recv (rcs380 in_set_rf)
+        self.air.brty_i = lambda: (self.ini.target.brty_send if self.ini.target is not None else brty)
+        self.air.brty_i_recv = lambda: (self.ini.target.brty_recv if self.ini.target is not None else brty)
         self.thread = None
         self.t_error = None
 
@@ -326,8 +355,12 @@ class Link(object):
 
 def classify(e):
     """exception -> observation string"""
+    if isinstance(e, Blocks):
+        return 'blocks'
     if isinstance(e, nfc.clf.TimeoutError):
         return 'err TimeoutError'
+    if type(e) is nfc.clf.BrokenLinkError:
+        return 'err BrokenLinkError'
     if isinstance(e, nfc.clf.TransmissionError):
         return 'err TransmissionError'
     if isinstance(e, nfc.clf.ProtocolError):
@@ -397,7 +430,7 @@ def conversation(cfg, payloads, responses, script, rtox=None, release=True, ini_
         while True:
             try:
                 r = link.tgt.exchange(send, 1000.0)
-            except Exception as e:  # noqa
+            except (Exception, Blocks) as e:  # noqa
                 obs['tgt'].append(classify(e))
                 return
             if r is None:
@@ -425,6 +458,7 @@ def conversation(cfg, payloads, responses, script, rtox=None, release=True, ini_
     obs['ini_miu'] = link.ini.miu
     obs['tgt_miu'] = link.tgt.miu
     obs['ini_pni'] = link.ini.pni
+    obs['tgt_calls_after_broken_link'] = link.tclf.calls_after_broken_link
     obs['tgt_pni'] = link.tgt.pni
     return obs
 
